@@ -1,4 +1,6 @@
 use parking_lot::RwLock;
+#[cfg(all(transparencies_stretto_verif, kani))]
+use crate::verif_kvec::Vec;
 use std::collections::hash_map::RandomState;
 #[cfg(not(all(transparencies_stretto_verif, kani)))]
 use std::collections::HashMap;
